@@ -561,6 +561,28 @@ def check_wf(grid, info, native, case, i, out, rng, ops, pend, model_ok):
                                                         "last_table": tabs[-1] if tabs else None}, want,
                      key="stream_context")
             return
+    # the entry points without a fixer argument, used after a parse that was rightly refused: nothing of the refused
+    # table (counters, messages) may carry over — a well-formed grid is typed as before
+    if i % 4 == 1:
+        from pdtable.io.parsers.blocks import make_table
+        bad = [["**bad"], ["all"], ["a", "b"], ["-", "onoff"], ["oops", "maybe"], ["1", "2"]]
+        with warnings.catch_warnings():
+            warnings.simplefilter("ignore")
+            try:
+                make_table([list(r) for r in bad])
+                refused = False
+            except Exception:  # noqa: BLE001
+                refused = True
+            try:
+                again = rc.canon_table(make_table([list(r) for r in grid]))
+            except Exception as e:  # noqa: BLE001
+                again = {"exc": type(e).__name__, "msg": str(e)[:160]}
+        out.count("c:default-fixer-after-refusal")
+        want = {k: v for k, v in impl["ok"].items() if k != "fixer"}
+        if not refused or again != want:
+            out.fail("make_table without a fixer types a well-formed grid differently (or refuses it) after an earlier "
+                     "table was refused in the same process", case, again, want, key="state_after_refusal")
+            return
     # missing values only from markers / empty native cells / float() itself
     check_missing_sources(grid, ref, impl["ok"], out, case)
     # locality: change one cell outside column j (keeping its own column well formed)
